@@ -3,7 +3,7 @@ From Coq Require Import String ZArith List Bool.
 From XV Require Import Base.Label Base.LSet Base.ODict Base.Attr Base.Outcome Model.Hypergraph
   Model.HgCheck Model.Copy Model.Derived Proofs.HgViews Proofs.HgInv Proofs.HgStep Proofs.Build Proofs.DerivedProofs
   Proofs.NoNoneProofs Proofs.DualProofs Proofs.UnionProofs Proofs.ComplementProofs Proofs.MaxSimplicesProofs
-  Model.Stats Model.Graph Proofs.GraphProofs Proofs.LccProofs Proofs.HgErrors Proofs.RelabelProofs Proofs.CleanupProofs Proofs.CutProofs.
+  Model.Stats Model.Graph Proofs.GraphProofs Proofs.LccProofs Proofs.HgErrors Proofs.RelabelProofs Proofs.CleanupProofs Proofs.CutProofs Proofs.LccInduced.
 Import ListNotations.
 Open Scope Z_scope.
 
@@ -170,6 +170,30 @@ Theorem C19_cut_to_order : forall order s, Inv s -> NoNone s ->
   (forall e M, get e (h_edge t) = Some M -> seteq M (mems s e)).
 Proof. exact cut_to_order_spec. Qed.
 Print Assumptions C19_cut_to_order.
+
+(* largest_connected_hypergraph (in place) is the sub-network INDUCED by a largest component: the nodes are one
+   reachability class of maximal size, the edges exactly those all of whose members lie in it, unchanged *)
+Theorem C19_largest_component_induced : forall s c, Inv s -> first_longest (Hypergraph.components s) = Some c ->
+  let t := st_of (largest_connected_inplace s) in
+  exists v, In v (nkeys s) /\
+    (forall c', In c' (Hypergraph.components s) -> (length c' <= length c)%nat) /\
+    (forall x, In x (nkeys t) <-> Reach s v x) /\
+    (forall e m, get e (h_edge t) = Some m <-> get e (h_edge s) = Some m /\ forall x, In x m -> Reach s v x).
+Proof. exact lcc_induced. Qed.
+Print Assumptions C19_largest_component_induced.
+
+(* the duplicate merge (rename = first, merge rule = first) ONLY merges: afterwards no two edges have the same members,
+   every remaining edge is an edge of the source under its own id with the same member set, every member set of the
+   source is still present, and the nodes are unchanged *)
+Theorem C19_merge_only_merges : forall s, Inv s -> NoNone s ->
+  out_of (merge_duplicate_edges RnFirst MrFirst None s) = Ok ->
+  let t := st_of (merge_duplicate_edges RnFirst MrFirst None s) in
+  Inv t /\ NoMulti t /\
+  (forall x mx, get x (h_edge t) = Some mx -> exists m0, get x (h_edge s) = Some m0 /\ seteq mx m0) /\
+  (forall e m0, get e (h_edge s) = Some m0 -> exists x mx, get x (h_edge t) = Some mx /\ seteq mx m0) /\
+  (forall n, In n (nkeys t) <-> In n (nkeys s)).
+Proof. exact merge_stage. Qed.
+Print Assumptions C19_merge_only_merges.
 
 (* the premises Inv and NoNone hold at every state reachable by an admissible, expressible history *)
 Theorem C19_premises_reachable : forall ops,
